@@ -112,6 +112,10 @@ func (v *validation) contentType() {
 		}
 		if ct != "" && v.route.Consumer == nil {
 			cons, ok := v.route.Consumers[ct]
+			if !ok && len(v.result) == 0 {
+				// admitted through a wildcard entry: the route's table only knows the literal entries
+				cons, ok = v.context.api.ConsumersFor([]string{ct})[ct]
+			}
 			if !ok {
 				v.result = append(v.result, errors.New(http.StatusInternalServerError, "no consumer registered for %s", ct))
 			} else {
